@@ -90,6 +90,8 @@ Definition dispatch (req : sx) : sx :=
         tab "visibility" spec_st_visibility; tab "shndx" spec_st_shndx; tab "boundto" spec_si_boundto]
   else if op =? "hashes" then sx_list (fun n => SL [SI (sysv_hash n); SI (gnu_hash n)]) (g_names a1)
   else if op =? "enc_sysv" then SB (encode_sysv_hash (gbool a1) (g_sysv a2))
+  else if op =? "enc_sysv_m" then           (* le table is64 machine: entry width from the spec *)
+    SB (encode_sysv_hash_w (sysv_entry_bytes (gbool a3) (gI a4)) (gbool a1) (g_sysv a2))
   else if op =? "wf_sysv" then              (* table strtab rows *)
     sx_bool (wf_sysv_hash (g_sysv a1) (names_of (gB a2) (g_rows a3)))
   else if op =? "enc_gnu" then SB (encode_gnu_hash (gbool a1) (gbool a2) (g_gnu a3))
@@ -125,7 +127,8 @@ Definition dispatch (req : sx) : sx :=
     SL [SI (syminfo_num_symbols (g_sec a3)); sx_res sx_views (syminfo_iter_symbols (gB a1) (g_cfg a2) (g_sec a3))]
   else if op =? "m_sysv" then               (* img cfg hashoff queries -> (count lookups) *)
     let img := gB a1 in let c := g_cfg a2 in
-    match elf_hash_init (c_le c) (c_is64 c) img (gI a3) with
+    (* optional 5th argument: e_machine (default EM_NONE): the entry width the live code chooses *)
+    match elf_hash_init_w (hash_wide (c_is64 c) (gI (nthx 5 l))) (c_le c) (c_is64 c) img (gI a3) with
     | Ok P => SL [sx_ok (SI (elf_hash_number_of_symbols P));
                   sx_list (fun q => sx_res sx_optview (elf_hash_get_symbol (get_symbol img c) P q)) (g_names a4)]
     | Err e => SL [sx_of_err e; sx_list (fun q => sx_of_err e) (g_names a4)]
